@@ -255,6 +255,9 @@ pub enum HttpBehaviour {
     Refused,
     Reset { delay_ms: u64 },
     Stall,
+    /// nothing arrives; the client's own total time-out (reqwest's client-level `timeout`, which the
+    /// http_send seam bypasses) fires after `ms` and the request fails with ProtocolError::Timeout
+    TimeoutAfter { ms: u64 },
 }
 
 pub type TcpHandler = Arc<dyn Fn(End, String) -> Pin<Box<dyn Future<Output = ()> + Send>> + Send + Sync>;
@@ -458,6 +461,11 @@ impl cascette_protocol::verif_hooks::HttpTransport for Network {
                     net.count("fault:stall");
                     std::future::pending::<()>().await;
                     unreachable!()
+                }
+                HttpBehaviour::TimeoutAfter { ms } => {
+                    net.count("fault:client_timeout");
+                    tokio::time::sleep(Duration::from_millis(ms)).await;
+                    Err(cascette_protocol::ProtocolError::Timeout)
                 }
             }
         })
